@@ -2,7 +2,7 @@
 //@ enforce: add_attr
 //@ pre-unwind: strcmp.0:9
 //@ props: C14
-//@ expect: postcondition>=2 canary=4
+//@ expect: postcondition>=2 canary=6
 #include "_unit.h"
 /* strcmp.0: is_sensitive() compares with the 8-byte literal "tls.key": at most 8 rounds.  strcpy/memcpy are the loop-free
  * models of env/ctl_env.h.  xv_ctl_g_len0/_namelen/_len (arbitrary after xv_ctl_ghost_havoc) are bound to attrs_len,
@@ -17,4 +17,6 @@ void harness(void)
     if (xv_ctl_g_len == 513) XV_CANARY("value one byte too long");
     if (xv_ctl_g_namelen == 64) XV_CANARY("name one character too long");
     if (xv_ctl_g_namelen == 7 && xv_ctl_g_len == 0) XV_CANARY("seven-character name, empty value");
+    if (xv_ctl_g_len0 == 63) XV_CANARY("64th attribute: last free entry");
+    if (xv_ctl_g_len0 == 64) XV_CANARY("table full: attribute left out");
 }
